@@ -992,9 +992,18 @@ class Machine:
             return -v
         raise Unsupported("unary %s" % op)
 
+    def fresh_bool(self, why="content"):
+        self.fresh += 1
+        return z3.Bool("unknown_%s_%d" % (why, self.fresh))
+
+    def is_content(self, v):
+        return isinstance(v, TokRef) or (isinstance(v, Opaque) and v.what.startswith("content"))
+
     def as_bool(self, v):
         if isinstance(v, bool) or (is_sym(v) and z3.is_bool(v)):
             return v
+        if self.is_content(v):
+            return self.fresh_bool()
         if isinstance(v, Alt):
             return Or(*[And(g, self.as_bool(x)) for g, x in v.alts])
         raise Unsupported("not a boolean: %r" % (v,))
@@ -1018,6 +1027,10 @@ class Machine:
         return self.binop(e, op, a, b, fr, guard)
 
     def binop(self, e, op, a, b, fr, guard):
+        if (self.is_content(a) or self.is_content(b)) and op in ("<", "<=", ">", ">=", "==", "!="):
+            return self.fresh_bool()
+        if (self.is_content(a) or self.is_content(b)) and op in ("+", "-", "*", "/", "%"):
+            return Opaque("content.arith")
         if op in ("+=", "-="):
             if isinstance(b, ConsumedV) and op == "+=":
                 nv = b.newpos
@@ -1066,6 +1079,8 @@ class Machine:
         raise Unsupported("binary %s on %s,%s" % (op, type(a).__name__, type(b).__name__))
 
     def equals(self, a, b):
+        if self.is_content(a) or self.is_content(b):
+            return self.fresh_bool()      # comparison that depends on a field's content: unknown
         if isinstance(a, RemV) or isinstance(b, RemV):
             other = b if isinstance(a, RemV) else a
             if other == "-":
@@ -1127,6 +1142,8 @@ class Machine:
     def ev_index(self, e, fr, guard):
         base = self.eval(e["base"], fr, guard)
         idx = e["index"]
+        if self.is_content(base):
+            return Opaque("content.slice")
         if isinstance(base, InputV) and idx["k"] == "range" and idx.get("end") is None and idx.get("start") is not None:
             return RemV(self.eval(idx["start"], fr, guard))
         raise Unsupported("index expression on %s" % type(base).__name__)
@@ -1451,6 +1468,15 @@ class Machine:
         if name == "extract_field_content" and m[2] is None:
             args = [self.eval(a, fr, guard) for a in arg_exprs]
             return self.prim_extract(args)
+        if m[2] is None and ("fields/swift_utils.rs" in str(m[1]) or "fields/field_utils.rs" in str(m[1])):
+            args = [self.eval(a, fr, guard) for a in arg_exprs]
+            if any(self.is_content(a) for a in args):
+                ret = m[0]["sig"].get("ret", "")
+                if ret.startswith("Result") or "::Result" in ret:
+                    return Res(self.fresh_bool(), Opaque("content.value"), Opaque("content.error"))
+                if ret == "bool":
+                    return self.fresh_bool()
+                return Opaque("content.value")
         if name in TOKEN_LEVEL_IDENTITY and m[2] is None:
             # byte-level trimming of the serialised text; invisible at token level (decided by Kani at byte level)
             return self.eval(arg_exprs[0], fr, guard)
@@ -1625,8 +1651,11 @@ class Machine:
                 return self.content_pred(key, recv.idx)
             if meth in ("lines", "chars", "split", "trim", "len", "bytes", "as_bytes", "split_whitespace", "char_indices"):
                 return Opaque("content." + meth)
-        if isinstance(recv, Opaque) and recv.what.startswith("content."):
-            return Opaque(recv.what + "." + meth)
+        if isinstance(recv, Opaque) and recv.what.startswith("content"):
+            if meth in ("all", "any", "is_some", "is_none", "is_ok", "is_err", "is_empty", "contains", "starts_with", "ends_with",
+                        "is_ascii_digit", "is_ascii_uppercase", "is_ascii_alphabetic", "is_ascii_alphanumeric", "is_some_and"):
+                return self.fresh_bool()
+            return Opaque("content." + meth)
         if isinstance(recv, FieldEmit) and meth == "strip_prefix" and args and args[0] == ":":
             return Opt(True, EmitTail(recv.fv))
         if isinstance(recv, EmitTail) and meth == "starts_with":
